@@ -708,7 +708,8 @@ def with_default(p, v):
     """The definition `p` with default value v, or None when a plain class attribute cannot override it here."""
     p = unrt(p)
     if p[0] == "Typed":
-        return ["Typed", p[1], v]
+        # CInt coerces the new default when the trait is cloned; Int and Str keep it as given (not validated)
+        return None if (p[1] == "VCInt" and v >= 100) else ["Typed", p[1], v]
     if p[0] == "Any":
         return ["Any", v]
     if p[0] == "ReadOnly":
